@@ -34,7 +34,8 @@ func (c18) Meta() fw.Meta {
 			"cross relation: every non-NaN view record inside the range appears in view-raw with identical time and value. " +
 			"non-trivial = file with at least one special value class and one stale lap, compared in both commands; distinct by (layout, flags)." +
 			" Every 7th file has the first slot of one archive zeroed (view-raw shows physical slots); every 8th case runs view and view-raw through the delayed single-threaded server on 1500-4000-point archives with concurrent clients." +
-			" Every 6th case runs view and view-raw with -text-out /dev/full (exit 0 is a violation) and every 6th views a copy of the file whose non-last archive has a damaged first slot (exit 0 without lines for that archive is a violation).",
+			" Every 6th case runs view and view-raw with -text-out /dev/full (exit 0 is a violation) and every 6th views a copy of the file whose non-last archive has a damaged first slot (exit 0 without lines for that archive is a violation)." +
+			" Also: a stored maxRetention field that differs from the last archive's retention; a window ending exactly at now - maxRetention; three runs of view with the race-detector build per 4th case.",
 		Assumptions: []string{
 			"view reads the wall clock: the run is accepted only when the second did not change across the process (stable second); discarded runs are counted",
 		},
